@@ -18,6 +18,7 @@ from . import lin
 from .model import AnalysisError, FuncInfo, Project, self_attr
 
 MUT = {'append': +1, 'insert': +1, 'pop': -1, 'remove': -1}
+DEFAULT_UNROLL = 2          # inner-loop unrolling bound of the shared walks (the thorough tier uses 3)
 NONE = ('const', None)
 RAISE = ('raise',)
 SNAP_KINDS = {'loophead', 'op', 'yield', 'call', 'return', 'backedge', 'loopcut', 'raise', 'spawn', 'pcall', 'succeed', 'cond', 'enter', 'leave'}
